@@ -65,6 +65,7 @@ class MNode:
         self.acc = E(0)
         self.bufs = {}      # zip: parent -> [x]
         self.last = {}      # combine_latest: parent -> x
+        self.emit_on = None  # combine_latest(emit_on=0): the parent whose updates trigger a tuple
         self.had_data = False
 
 
@@ -166,7 +167,7 @@ class Topo:
                 self.dead = True
         elif k == "combine_latest":
             m.last[who] = (x, md)
-            if all(p in m.last for p in m.parents):
+            if all(p in m.last for p in m.parents) and m.emit_on in (None, who):
                 self.m_emit(c, tuple(m.last[p][0] for p in m.parents),
                             [i_ for p in m.parents for i_ in m.last[p][1]])
         elif k == "sink":
@@ -258,7 +259,13 @@ class Topo:
             elif kind == "zip":
                 s = score.zip(*ups)
             elif kind == "combine_latest":
-                s = score.combine_latest(*ups)
+                if i % 3 == 1 and len(ups) >= 2:
+                    # emit_on given as an index: tuples only on updates of that input, also
+                    # after later edits of the node's other inputs
+                    s = score.combine_latest(*ups, emit_on=0)
+                    m.emit_on = ps[0]
+                else:
+                    s = score.combine_latest(*ups)
             elif kind == "sink":
                 c = Consumer(self.log, i, "sync")
                 self.consumers[i] = c
@@ -309,6 +316,8 @@ class Topo:
     def do_disconnect_ids(self, a, b):
         if a not in self.real or b not in self.real or a not in self.model[b].parents:
             return
+        if self.model[b].emit_on == a:
+            return      # (see ASSUMPTIONS: the emit_on input stays connected)
         self._note_edit(b)
         self.real[a].disconnect(self.real[b])
         self._m_remove_edge(a, b)
@@ -337,6 +346,8 @@ class Topo:
         m = self.model[n]
         if m.kind == "sink" and m.destroyed_sink:
             return
+        if m.emit_on is not None and m.emit_on in m.parents:
+            return
         self._note_edit(n)
         self.real[n].destroy()
         for p in list(m.parents):
@@ -358,7 +369,8 @@ class Topo:
     def do_destroy_some_ids(self, n, chosen):
         if n not in self.real or self.model[n].kind == "sink":
             return
-        chosen = [p for p in chosen if p in self.real and p in self.model[n].parents]
+        chosen = [p for p in chosen if p in self.real and p in self.model[n].parents
+                  and p != self.model[n].emit_on]
         self._note_edit(n)
         self.real[n].destroy(streams=[self.real[p] for p in chosen])
         for p in chosen:
